@@ -452,6 +452,12 @@ def check_history(case, rec):
                         k2 = mk_krige(m2, cfg, cond_pos.copy(), cond_val.copy())
                         f2 = getattr(gs.CondSRF(k2, mode_no=mode_no), mt)(arg, seed=seed)
                         require(np.shape(f) == np.shape(f2), f"{where}: {mt} call returns shape {np.shape(f)}, a fresh object {np.shape(f2)}", dict(otags, kind="stale"))
+                        require(bool(np.array_equal(np.isnan(np.asarray(f)), np.isnan(np.asarray(f2)))),
+                                f"{where}: {mt} call: NaN pattern differs from a freshly built Krige+CondSRF", dict(otags, kind="stale"))
+                        if not np.any(np.isfinite(f2)):
+                            # data (minus trend) outside the normalizer's domain: nothing to compare
+                            rec.exclude("data_outside_normalizer_range")
+                            break
                         scale = max(1.0, float(np.nanmax(np.abs(f2)))) + math.sqrt(spec["var"])
                         err = float(np.nanmax(np.abs(np.asarray(f) - np.asarray(f2))))
                         require(err <= 1e-8 * scale, f"{where}: {mt} call on the same coordinate arrays differs from a freshly built Krige+CondSRF by {err:.3g}",
